@@ -120,7 +120,7 @@ def main(tier):
     ck = frame.Check(PROP, tier, "exploration", replay_fn=replay_witness)
     built = core.build_repo()
     ck.built = built
-    n = 700 if tier == "quick" else 20000
+    n = 6000 if tier == "quick" else 60000
     jobs = [(built, ck.seed, tier, spec_for(i, ck.seed, tier)) for i in range(n)]
     for res in frame.pmap(work, jobs, chunksize=8):
         ck.absorb(res)
